@@ -81,6 +81,10 @@ def backend_corpus(seed, tier):
     gs = [('c_' + k, g) for k, g in gram.curated().items()]
     for i in range(8 if tier == 'quick' else 80):
         gs.append(('tp%d' % i, gram.two_path_grammar(rnd)))
+    for i in range(8 if tier == 'quick' else 80):
+        gs.append(('lay%d' % i, gram.layered_expr(rnd)))
+    for i in range(4 if tier == 'quick' else 40):
+        gs.append(('ring%d' % i, gram.ring_grammar(rnd, nullable=bool(i % 2))))
     n = 120 if tier == 'quick' else 1500
     for i in range(n):
         kind = i % 4
@@ -121,6 +125,8 @@ def i6_corpus(seed, tier):
         else:
             g = gram.random_usable(rnd, nT=rnd.randint(1, 3), nN=rnd.randint(1, 3), p_prec=0.3)
         gs.append(('r%d' % i, genrun.fix_tags(g)))
+    for i in range(4 if tier == 'quick' else 30):
+        gs.append(('lay%d' % i, genrun.fix_tags(gram.layered_expr(rnd, nlev=rnd.randint(1, 2)))))
     for i in range(10 if tier == 'quick' else 60):
         g = gram.random_usable(rnd, nT=rnd.randint(2, 4), nN=rnd.randint(1, 3), max_alts=4, p_term=0.7)
         gs.append(('tw%d' % i, gram.twin_actions(genrun.fix_tags(g), rnd)))
